@@ -227,6 +227,73 @@ def build_ts_cc_stream(rng, v, scenario):
     return st
 
 
+def build_ts_gap_stream(rng, d, even, real):
+    """intact VBI PES packets in TS packets of one PID (no other packets, nothing damaged inside a packet); at one
+    point the continuity_counter jumps: the packet that arrives carries `expected + d` (1 <= d <= 15), because d
+    consecutive packets of the PID are missing (`real`) or because the counters are renumbered from there on (a splice).
+    `even`: parity of the counter the demultiplexer expects at that point - the verdict "repeated packet" (counter =
+    expected - 1, packet dropped silently) vs. "continuity lost" (PES packet in progress and frame discarded) hangs on all
+    four bits of both.  `st.gap = (j_lo, j_hi)`: frames j_lo .. j_hi have a missing packet or contain the packet at which
+    the gap is seen; the frame held at that moment (j_lo - 1) goes with them, everything else must arrive as sent."""
+    pid = rng.choice([0x10, 0x100, 0x1FFE, rng.randrange(0x10, 0x1FFF)])
+    st = Stream("ts", pid)
+    n_frames = d + 7 if real else rng.randrange(6, 9)
+    pes = build_pes_stream_plain(rng, n_frames)
+    st.frames = pes.frames
+    pk = []
+    for fi, packets in enumerate(pes.packets):
+        for p in packets:
+            pk += [(fi, tp) for tp in du.ts_packets(p, pid, 0)[0]]
+    g = rng.choice([i for i, (fi, _) in enumerate(pk) if fi in (2, 3)])
+    e = rng.randrange(8) * 2 + (0 if even else 1)
+    c0 = (e - g) & 15
+    b = []
+    for i, (fi, tp) in enumerate(pk):
+        if real and g <= i < g + d:
+            continue
+        cc = (c0 + i + (d if (not real and i >= g) else 0)) & 15
+        b += tp[:3] + [(tp[3] & 0xF0) | cc] + tp[4:]
+    st.bytes = b + du.ts_other(rng, pid, "null") + du.ts_other(rng, pid, "null")
+    st.gap = (pk[g][0], pk[g + d][0] if real else pk[g][0])
+    st.kind_detail = "%s d=%d expected %s" % ("loss" if real else "splice", d, "even" if even else "odd")
+    return st
+
+
+def build_short_unit_stream(rng):
+    """intact one-or-two-packet frames; in front of frame j an extra 184-byte packet whose LAST data unit is one byte
+    shorter than the service allows (data_unit_length = minimum - 1) and ends exactly at the end of the packet: a length
+    test that is off by one makes the demultiplexer read the payload of that unit from behind the PES packet.  The unit
+    is illegal (EN 301 775 4.4 ff.), the frame it belongs to is damage."""
+    n_frames = rng.randrange(6, 9)
+    pes = build_pes_stream_plain(rng, n_frames)
+    st = Stream("pes")
+    st.frames = pes.frames
+    j = rng.randrange(2, n_frames - 3)
+    svc = rng.choice(list(du.SERVICES))
+    n = du.SERVICES[svc][1]
+    # a line the service may stand on (behind line 7 of the first field), so that only the length is wrong
+    field, lo = {"vps": (0, 16), "wss": (0, 23), "cc": (0, 21)}.get(svc, (rng.randrange(2), rng.randrange(8, 23)))
+    u = du.data_unit(svc, field, lo, [rng.randrange(256) for _ in range(n)],
+                     fixed=svc in ("ttx", "ttxs") and rng.random() < 0.7)
+    short = u[:-1]
+    short[1] = len(short) - 2
+    first = du.data_unit("ttx", 0, 7, [rng.randrange(256) for _ in range(42)])
+    k = 138 - len(first) - len(short) - 2
+    b = []
+    for fi, packets in enumerate(pes.packets):
+        if fi == j:
+            pos = len(b)
+            b += du.pes_packet(rng.randrange(1 << 33), [first, [0xFF, k] + [0xFF] * k, short])
+            assert len(b) - pos == 184
+        st.starts.append(len(b))
+        for pk in packets:
+            b += pk
+    st.bytes = b
+    st.damage = (j, pos, pos + 184)
+    st.kind_detail = "short %s unit" % svc
+    return st
+
+
 def build_pes_stream_plain(rng, n_frames):
     """PES packets only (no filler), grouped per frame, payload free of 0x47 for the TS sync search"""
     st = Stream("pes")
@@ -434,7 +501,7 @@ def damage_ts(rng, st):
 class C07(verif.Spec):
     prop = "C07"
     comp = "demux"
-    lean_modules = ["ZvbiModel.Props.C07", "ZvbiModel.Props.C07Cor"]
+    lean_modules = ["ZvbiModel.Props.C07", "ZvbiModel.Props.C07Cor", "ZvbiModel.Props.C07Ts"]
     harness = "demux_harness"
     harness_link_lib = True
     timeout_per_case = 6.0
@@ -443,7 +510,9 @@ class C07(verif.Spec):
                     "after the overflow packet are proved for the model (for the repaired and the unrepaired shape of "
                     "the two fixed statements alike; the two old defects are proved counterexamples for the unrepaired "
                     "shape). TS path: invariant, safety/progress and split invariance proved in full; continuity_counter rule (unknown "
-                    "counter accepts any value, repeated = same counter as the packet before). Coroutine "
+                    "counter accepts any value, repeated = same counter as the packet before, a gap discards the PES packet in progress and the "
+                    "held lines only, the expected counter is never 0 in any reachable context so that the sign test >= 0 / > 0 and the "
+                    "unsigned prev_cont are what the model computes; the dead error exit bad_ts_packet_return is a regenerated fact). Coroutine "
                     "interface: progress (no livelock) for every context, and cor_equals_feed (any sequence of drained "
                     "buffers after any feed history, repaired source) proved by a second refinement. Joined with C06 (Props/C07Cor.lean): parser equivalence EnParse.pesStream vs "
                     "the demultiplexer and the round trip from the multiplexer model for every feed partition and "
@@ -567,6 +636,12 @@ class C07(verif.Spec):
             c = self.variants_odd(rng, st)
             self.meta["\n".join(c)] = ("pes_odd_length", st)
             cases.append(c)
+        for i in range(max(8, N // 8)):
+            # a data unit one byte too short as the last unit of a packet; each packet also as a buffer of its own
+            st = build_short_unit_stream(rng)
+            c = self.variants(rng, st, False) + ["new pes", "feedn 184 " + hx(st.bytes), "st"]
+            self.meta["\n".join(c)] = ("pes_short_unit", st)
+            cases.append(c)
         for i in range(N // 4):
             st = build_lead_stream(rng)
             if rng.random() < 0.5:
@@ -600,6 +675,16 @@ class C07(verif.Spec):
                     c = self.variants_cc(rng, st)
                     self.meta["\n".join(c)] = ("ts_cc", st)
                     cases.append(c)
+        # every jump of the continuity_counter (expected + 1 .. expected + 15) at an even and at an odd expected value:
+        # as a renumbering of intact packets (all 15 jumps) and as a real loss of d consecutive packets (a few d)
+        for rep in range(1 if tier == "quick" else 4):
+            for real in (False, True):
+                for d in (range(1, 16) if not real else (1, 2, 13, 14, 15)):
+                    for even in (True, False):
+                        st = build_ts_gap_stream(rng, d, even, real)
+                        c = self.variants_cc(rng, st)
+                        self.meta["\n".join(c)] = ("ts_gap", st)
+                        cases.append(c)
         for i in range(N // 2):
             if rng.random() < 0.5:
                 st = build_ts_stream(rng, rng.randrange(2, 5))
@@ -768,6 +853,25 @@ class C07(verif.Spec):
                             % (st.kind_detail.split(" ")[0], lost[0], len(exp)))
                 return ("TS stream after a loss of sync between packets (%s): %d frames lost %s, at most one of the "
                         "frames %d, %d may be" % (st.kind_detail.split(" ")[0], len(lost), lost, j - 1, j))
+            return None
+        gap = getattr(st, "gap", None)
+        if gap is not None:
+            # continuity_counter jump seen in frame j_hi, packets missing from frame j_lo on: the frames before the one
+            # held at that moment and all frames after j_hi arrive as sent, nothing is delivered twice or in excess
+            j_lo, j_hi = gap
+            head, tail = exp[:max(0, j_lo - 1)], exp[j_hi + 1:]
+            if " d=15 " in st.kind_detail:
+                # expected + 15 = expected - 1 (mod 16): not a visible gap - ISO 13818-1 2.4.3.3 makes this packet a
+                # duplicate, it is dropped silently and the damage shows one packet later: one more frame may go
+                tail = exp[j_hi + 2:]
+            if ref[:len(head)] != head:
+                return ("TS continuity gap (%s): frames sent before the frame held when the gap is seen are not "
+                        "delivered as sent" % st.kind_detail)
+            if tail and ref[-len(tail):] != tail:
+                return ("TS continuity gap (%s): frames after the one in which the gap is seen are not delivered as "
+                        "sent (%d delivered, %d sent)" % (st.kind_detail, len(ref), len(exp)))
+            if len(ref) > len(exp):
+                return "TS continuity gap (%s): more frames delivered than sent" % st.kind_detail
             return None
         if st.damage is None:
             if ref != exp:
